@@ -107,6 +107,7 @@ type Session struct {
 	ShmSend      bool
 	ShmResolved  int
 	ShmSentCount int
+	ShmDeferred  int // pointer batches held until end of stream (write-ahead ops)
 	ShmErr       error
 	advertised   bool
 	// Pipeline: how many following unary-shaped requests the client writes
@@ -488,6 +489,34 @@ func (s *Session) runOp(op *Op) *OpResult {
 	res.DataSchema = rd.Schema().String()
 	answered := 0 // inputs for which the turn's outcome has been read
 	cur := TurnOut{}
+	// The shared-memory side channel has no inter-process lock: its contract is
+	// that only one party touches the segment at a time (shm.go, "lockstep").
+	// A client that writes inputs ahead has the server working on the next turn
+	// (allocating its output) while the previous output is being read, so such
+	// a client may not touch the segment until the server has finished the
+	// stream: it keeps the pointer batches and resolves and frees them all
+	// after the end-of-stream marker.
+	deferShm := s.Shm != nil && op.WriteAhead > 0
+	type heldPtr struct {
+		rec      arrow.RecordBatch
+		all, trn int
+	}
+	var held []heldPtr
+	defer func() {
+		for _, h := range held {
+			rec, owned := s.resolve(h.rec)
+			b := hx.DecodeBatch(rec)
+			if owned {
+				rec.Release()
+			}
+			h.rec.Release()
+			res.AllBatch[h.all] = b
+			if h.trn < len(res.Turns) {
+				bb := b
+				res.Turns[h.trn].Data = &bb
+			}
+		}
+	}()
 	for {
 		if !rd.Next() {
 			if rerr := rd.Err(); rerr != nil && rerr != io.EOF {
@@ -508,10 +537,18 @@ func (s *Session) runOp(op *Op) *OpResult {
 			closeInput()
 			return res
 		}
-		rec, owned := s.resolve(rd.RecordBatch())
-		b := hx.DecodeBatch(rec)
-		if owned {
-			rec.Release()
+		var b hx.Batch
+		if raw := rd.RecordBatch(); deferShm && vgirpc.IsShmPointerBatch(raw) {
+			raw.Retain()
+			held = append(held, heldPtr{rec: raw, all: len(res.AllBatch), trn: len(res.Turns)})
+			s.ShmDeferred++
+			b = hx.Batch{Kind: "data"} // filled in after end of stream
+		} else {
+			rec, owned := s.resolve(raw)
+			b = hx.DecodeBatch(rec)
+			if owned {
+				rec.Release()
+			}
 		}
 		res.AllBatch = append(res.AllBatch, b)
 		switch b.Kind {
